@@ -506,31 +506,80 @@ def rule_convention_roles(repo: Repo, chk: Check, rule: str):
 
 
 # ------------------------------------------------------------------ R04.e / R13.d
+def class_attr_value(mod, fn, e):
+    """self.X / Cls.X where X is assigned once in the class body of *fn*'s class -> that value, else None."""
+    cls = getattr(fn, "cls", None)
+    if cls is None or not (isinstance(e, ast.Attribute) and isinstance(e.value, ast.Name) and e.value.id in ("self", "cls", cls.name)):
+        return None
+    vals = [st.value for st in cls.body if isinstance(st, ast.Assign) and any(isinstance(t, ast.Name) and t.id == e.attr for t in st.targets)]
+    vals += [st.value for st in cls.body if isinstance(st, ast.AnnAssign) and isinstance(st.target, ast.Name) and st.target.id == e.attr and st.value is not None]
+    return vals[0] if len(vals) == 1 else None
+
+
+def lifetime_leaves(mod, lf, cfg, rd):
+    """[(value expression, statement that decides it)] for everything stored into self._lifetime: local names are followed to
+    their defining assignments, class-level constants to their value."""
+    out, seen = [], set()
+
+    def follow(v, st):
+        if isinstance(v, ast.Name):
+            ids = live_ids(cfg, st)
+            ds = rd.at(ids[0], v.id) if ids else []
+            if ds and all(d.kind == "assign" and not d.index and d.value is not None for d in ds):
+                for d in ds:
+                    if d.node not in seen:
+                        seen.add(d.node)
+                        follow(d.value, cfg.nodes[d.node].ast)
+                return
+        if isinstance(v, ast.Constant) and v.value is None:
+            return
+        ca = class_attr_value(mod, lf, v)
+        out.append((ca if ca is not None else v, st))
+
+    for st in ast.walk(lf):
+        if isinstance(st, ast.Assign) and any(norm(x).endswith("_lifetime") for x in st.targets):
+            follow(st.value, st)
+    return out
+
+
+def _is_module_scope_test(e, var=None):
+    return isinstance(e, ast.Call) and norm(e.func) == "isinstance" and len(e.args) == 2 and ".scope()" in norm(e.args[0]) and norm(e.args[1]).endswith("Module") \
+        and (var is None or norm(e.args[0]).startswith(var + "."))
+
+
 def rule_module_lifetime(repo: Repo, chk: Check, rule: str):
     t = repo.mod("types")
     lf = t.func("IC10Register.lifetime")
     chk.saw("types", "IC10Register.lifetime")
     cfg, rd = fn_ctx(lf)
     where = f"{t.path}:{lf.lineno} in IC10Register.lifetime"
-    stores = [st for st in ast.walk(lf) if isinstance(st, ast.Assign) and "maxsize" in norm(st.value) and any(norm(x).endswith("_lifetime") for x in st.targets)]
+    leaves = lifetime_leaves(t, lf, cfg, rd)
+    stores = [(v, st) for v, st in leaves if isinstance(v, ast.Call) and norm(v.func) == "range" and v.args and "maxsize" in norm(v.args[-1])]
     if not stores:
         chk.bad(rule, "types:IC10Register.lifetime:module-level values live for the whole program",
                 "no unbounded lifetime is assigned any more: a global is released after its last textual use although functions read it later", None, where)
         return
-    for st in stores:
+    for v, st in stores:
         ids = live_ids(cfg, st)
         atoms = guard_atoms(cfg, ids[0]) if ids else []
-        by_type = any(p and isinstance(tst, ast.Call) and norm(tst.func) == "isinstance" and ".scope()" in norm(tst.args[0]) and norm(tst.args[1]).endswith("Module")
-                      for tst, p in atoms)
         by_name = [norm(tst) for tst, p in atoms if isinstance(tst, ast.Compare) and any(isinstance(c, ast.Constant) and isinstance(c.value, str) for c in tst.comparators)
                    and ".name" in norm(tst.left)]
-        in_loop = False
+        # (a) inside 'for n in self.nodes_writing' under isinstance(n.scope(), Module)
+        loopvars = []
         p = st
         while p is not None and p is not lf:
-            if isinstance(p, ast.For) and "nodes_writing" in norm(p.iter):
-                in_loop = True
+            if isinstance(p, ast.For) and "nodes_writing" in norm(p.iter) and isinstance(p.target, ast.Name):
+                loopvars.append(p.target.id)
             p = getattr(p, "parent", None)
-        chk.judge(rule, "types:IC10Register.lifetime:module-level values live for the whole program", by_type and not by_name and in_loop,
+        ok = any(pol and any(_is_module_scope_test(tst, lv) for lv in loopvars) for tst, pol in atoms)
+        # (b) under any(isinstance(n.scope(), Module) for n in self.nodes_writing)
+        for tst, pol in atoms:
+            if pol and isinstance(tst, ast.Call) and norm(tst.func) == "any" and len(tst.args) == 1 and isinstance(tst.args[0], (ast.GeneratorExp, ast.ListComp)):
+                g = tst.args[0]
+                if len(g.generators) == 1 and not g.generators[0].ifs and "nodes_writing" in norm(g.generators[0].iter) and isinstance(g.generators[0].target, ast.Name) \
+                        and _is_module_scope_test(g.elt, g.generators[0].target.id):
+                    ok = True
+        chk.judge(rule, "types:IC10Register.lifetime:module-level values live for the whole program", ok and not by_name,
                   "the unbounded lifetime is assigned " + (f"only for the module whose name satisfies {by_name}" if by_name else "without testing that a writer's scope is a Module")
                   + ": globals of library modules get line intervals and two of them (or a global and a function local) can share a register",
                   {"guards": [norm(tst) + ("" if p_ else "=False") for tst, p_ in atoms]}, f"{t.path}:{st.lineno} in IC10Register.lifetime")
